@@ -3,7 +3,7 @@
     server can be in the state in which AUTH is possible (command state 0x10), or have its ESMTP flag set, only if the last
     accepted greeting was an EHLO - over every round of the command loop.  (The flag alone is NOT equivalent to
     that: a refused HELO clears it without leaving the EHLO state.) *)
-From Qv Require Import Common.Bytes Gen.GenNetio Gen.GenSession Model.NetRead Model.Session Spec.SessionSpec Proofs.AuthSync.
+From Qv Require Import Common.Bytes Gen.GenNetio Gen.GenSession Model.NetRead Model.Session Spec.SessionSpec Proofs.RelayDecide Proofs.AuthSync.
 From Coq Require Import Lia.
 
 Definition esm_step (e : event) (b : bool) : bool := match e with Note (NEsmtp x) => x | _ => b end.
@@ -11,6 +11,8 @@ Definition esm_run (evs : list event) (b : bool) : bool := fold_left (fun b e =>
 Definition is_esm_note (e : event) : bool := match e with Note (NEsmtp _) => true | _ => false end.
 Definition has_esm (evs : list event) : bool := existsb is_esm_note evs.
 
+Lemma has_esm_app a b : has_esm (a ++ b) = has_esm a || has_esm b.
+Proof. apply existsb_app. Qed.
 Lemma esm_run_app a b x : esm_run (a ++ b) x = esm_run b (esm_run a x).
 Proof. unfold esm_run. apply fold_left_app. Qed.
 Lemma esm_run_none evs b : has_esm evs = false -> esm_run evs b = b.
@@ -117,14 +119,18 @@ Proof.
     try reflexivity; cbn [has_esm existsb is_esm_note orb]; apply (wait_for_quit_esm f (set_rd sd r')).
 Qed.
 
-Lemma relay_decide_esm s cls al s1 pre : relay_decide o s cls = (al, s1, pre) ->
-  keeps s s1 /\ (pre = [] \/ pre = [Reply 421]).
+Lemma pre_ok_esm pre : pre_ok pre -> has_esm pre = false.
 Proof.
-  unfold relay_decide. destruct cls.
-  - intros H; inversion H; subst. split; [apply keeps_refl|auto].
-  - destruct (authed s); [intros H; inversion H; subst; split; [apply keeps_refl|auto]|].
-    destruct (N.eqb (relayclient s) 0); [destruct (Z.ltb (o_relay o) 0)|]; intros H; inversion H; subst;
-      (split; [split; auto|auto]).
+  unfold pre_ok, has_esm. induction pre as [|e r IH]; [reflexivity|]. cbn [forallb existsb]. intros H.
+  apply andb_true_iff in H as [He Hr]. rewrite (IH Hr), orb_false_r.
+  destruct e as [c|x y| | |n]; try reflexivity; try discriminate. destruct n; try discriminate; reflexivity.
+Qed.
+
+Lemma relay_decide_esm s cls res s1 pre : relay_decide o s cls = (res, s1, pre) ->
+  keeps s s1 /\ has_esm pre = false.
+Proof.
+  intros H. destruct (relay_decide_core _ _ _ _ _ _ H) as (Hc & Hp). split; [|exact (pre_ok_esm _ Hp)].
+  destruct Hc as (_ & C2 & C3 & _). split; auto.
 Qed.
 
 Ltac kp := first [ solve [apply keeps_refl] | solve [apply keeps_tarpit; kp] | solve [apply keeps_freedata; kp] | solve [split; cbn [esmtp comstate]; auto] ].
@@ -134,22 +140,21 @@ Proof.
   unfold h_rcpt. intros H.
   destruct (o_addr o true arg) as [| | |addr more cls];
     try (destruct (Nat.leb MAXRCPT (rcptcount s))); try (inversion H; subst; (split; [reflexivity|kp])).
-  destruct (relay_decide o s cls) as [[al s1] pre] eqn:Er.
+  destruct (relay_decide o s cls) as [[res s1] pre] eqn:Er.
   destruct (relay_decide_esm _ _ _ _ _ Er) as (Hb & Hpre).
-  destruct pre as [|p pre'].
-  2:{ inversion H; subst. destruct Hpre as [E|E]; [discriminate|]. inversion E; subst. split; [reflexivity|exact Hb]. }
+  destruct res as [al|h0]; [|inversion H; subst; split; [exact Hpre|exact Hb]].
   repeat (match type of H with
           | context [match ?x with _ => _ end] => destruct x eqn:?
           | context [if ?x then _ else _] => destruct x eqn:?
           end; try discriminate);
-    inversion H; subst; (split; [reflexivity|]);
+    inversion H; subst; (split; [rewrite ?has_esm_app, ?Hpre; reflexivity|]);
     first [ exact Hb | solve [apply keeps_tarpit; exact Hb]
           | solve [apply keeps_tarpit; destruct Hb as [A B]; split; cbn [esmtp comstate]; auto]
           | solve [destruct Hb as [A B]; split; cbn [esmtp comstate]; auto] ].
 Qed.
 
-Lemma subm_gate_esm s al s1 pre : subm_gate o s = (al, s1, pre) ->
-  keeps s s1 /\ (pre = [] \/ pre = [Reply 421]).
+Lemma subm_gate_esm s res s1 pre : subm_gate o s = (res, s1, pre) ->
+  keeps s s1 /\ has_esm pre = false.
 Proof.
   unfold subm_gate. destruct (o_submission o); [apply relay_decide_esm|]. intros H; inversion H; subst. split; [apply keeps_refl|auto].
 Qed.
@@ -159,15 +164,14 @@ Proof.
   unfold h_from. intros H.
   destruct (o_addr o false arg) as [| | |addr more cls]; [inversion H; subst; split; [reflexivity|split; cbn [esmtp comstate]; auto]| | |];
     (match type of H with context [subm_gate o ?sc] =>
-       destruct (subm_gate o sc) as [[al s1] pre] eqn:Eg; destruct (subm_gate_esm _ _ _ _ Eg) as (Hb & Hpre) end);
+       destruct (subm_gate o sc) as [[res s1] pre] eqn:Eg; destruct (subm_gate_esm _ _ _ _ Eg) as (Hb & Hpre) end);
     (assert (Hb' : keeps s s1) by (destruct Hb as [A B]; split; cbn [esmtp comstate] in *; auto)); clear Hb;
-    (destruct pre as [|p pre'];
-     [|inversion H; subst; destruct Hpre as [E|E]; [discriminate|]; inversion E; subst; split; [reflexivity|exact Hb']]);
+    (destruct res as [al|h0]; [|inversion H; subst; split; [exact Hpre|exact Hb']]);
     repeat (match type of H with
             | context [match ?x with _ => _ end] => destruct x eqn:?
             | context [if ?x then _ else _] => destruct x eqn:?
             end; try discriminate);
-    inversion H; subst; (split; [reflexivity|]);
+    inversion H; subst; (split; [rewrite ?has_esm_app, ?Hpre; reflexivity|]);
     first [ exact Hb' | solve [apply keeps_tarpit; exact Hb']
           | solve [destruct Hb' as [A B]; split; cbn [esmtp comstate]; auto] ].
 Qed.
@@ -289,7 +293,7 @@ Proof.
     assert (Hpos : (0 <? Z.of_N (helo_state (esmtp s')))%Z = true) by (unfold helo_state; destruct (esmtp s'); reflexivity).
     rewrite Hpos. rewrite N2Z.id. split; cbn [set_badcmds set_comstate esmtp comstate]; [exact K1|].
     unfold helo_state. destruct (esmtp s'); [intros _; auto|discriminate].
-  - (* STARTTLS *) inversion H; subst. apply Kq; [reflexivity|apply keeps_refl].
+  - (* STARTTLS *) destruct (negb (esmtp s)); inversion H; subst; apply Kq; first [reflexivity|apply keeps_refl].
   - (* AUTH *)
     apply andb_true_iff in Hrow as [_ Hst].
     assert (Hst' : (Z.ltb st 0 || (Z.eqb st 0 && negb (Nat.eqb i 4)) || (Z.ltb 0 st && negb (Z.eqb st 16))) = true) by (rewrite Hst; reflexivity).
